@@ -53,3 +53,29 @@ pub open spec fn sem_cswap(s: Seq<Felt>) -> Seq<Felt> {
 pub open spec fn sem_cswapw(s: Seq<Felt>) -> Seq<Felt> {
     shl_with(s, if s[0].val() == 1 { s.subrange(5, 9) + s.subrange(1, 5) } else { s.subrange(1, 5) + s.subrange(5, 9) }, 9)
 }
+
+// ---- u32 operations (docs/src/design/stack/u32_ops.md, user_docs/assembly/u32_operations.md) ----
+pub open spec fn B32() -> int { 0x1_0000_0000 }
+pub open spec fn is_u32(x: Felt) -> bool { x.val() < B32() }
+pub open spec fn hi_lo(v: int) -> Seq<Felt> { seq![fe(v / B32()), fe(v % B32())] }
+pub open spec fn sem_u32split(s: Seq<Felt>) -> Seq<Felt> { keep_with(s, hi_lo(s[0].val()), 1) }
+pub open spec fn fail_u32assert2(s: Seq<Felt>) -> bool { !is_u32(s[0]) || !is_u32(s[1]) }
+/// the arithmetic u32 operations are specified for u32 operands only ("undefined otherwise")
+pub open spec fn pre_u32_2(s: Seq<Felt>) -> bool { is_u32(s[0]) && is_u32(s[1]) }
+pub open spec fn pre_u32_3(s: Seq<Felt>) -> bool { is_u32(s[0]) && is_u32(s[1]) && is_u32(s[2]) }
+pub open spec fn sem_u32add(s: Seq<Felt>) -> Seq<Felt> { keep_with(s, hi_lo(s[1].val() + s[0].val()), 2) }
+pub open spec fn sem_u32add3(s: Seq<Felt>) -> Seq<Felt> { shl_with(s, hi_lo(s[2].val() + s[1].val() + s[0].val()), 3) }
+pub open spec fn sem_u32sub(s: Seq<Felt>) -> Seq<Felt> {
+    keep_with(s, seq![b2f(s[1].val() < s[0].val()), fe((s[1].val() - s[0].val()) % B32())], 2)
+}
+pub open spec fn sem_u32mul(s: Seq<Felt>) -> Seq<Felt> { keep_with(s, hi_lo(s[1].val() * s[0].val()), 2) }
+pub open spec fn sem_u32madd(s: Seq<Felt>) -> Seq<Felt> { shl_with(s, hi_lo(s[1].val() * s[0].val() + s[2].val()), 3) }
+pub open spec fn fail_u32div(s: Seq<Felt>) -> bool { s[0].val() == 0 }
+pub open spec fn sem_u32div(s: Seq<Felt>) -> Seq<Felt> { keep_with(s, seq![fe(s[1].val() % s[0].val()), fe(s[1].val() / s[0].val())], 2) }
+pub open spec fn sem_u32and(s: Seq<Felt>) -> Seq<Felt> { shl_with(s, seq![fe(((s[1].val() as u64) & (s[0].val() as u64)) as int)], 2) }
+pub open spec fn sem_u32xor(s: Seq<Felt>) -> Seq<Felt> { shl_with(s, seq![fe(((s[1].val() as u64) ^ (s[0].val() as u64)) as int)], 2) }
+/// helper registers of a u32 op (C03): 16-bit limbs of lo and hi, and m = 1/(2^32 - 1 - hi) or 0
+pub open spec fn u32_helpers(lo: int, hi: int, check: bool) -> Seq<Felt> {
+    seq![fe(lo % 0x10000), fe(lo / 0x10000), fe(hi % 0x10000), fe(hi / 0x10000),
+         if check { fe(finv(fsub(0xFFFF_FFFF, hi))) } else { fe(0) }]
+}
